@@ -24,6 +24,29 @@ CHECKS = {
             'connection objects; N<=3, H<=2, M<=2.', '5/C12'),
 }
 
+CHECKS['C08'] = ('model_checking', 'bytestream',
+    'exhaustive segmentation enumeration / explicit-state search over all segmentations of '
+    'the real HTTP client, compared with an RFC 7230 reference decoder',
+    'Every response of a header-style x framing x body alphabet (and 2-3 exchange lockstep '
+    'sequences on one persistent connection) is fed to the real Client/Session/Stream/'
+    'Connection with every cut set of <=2 cuts, as single bytes, with EOF arriving with or '
+    'after the last piece, and truncated at every byte position; thorough adds a BFS over '
+    'all piece histories with fingerprint merging for streams <=170 bytes. Status, fields, '
+    'body, bytes consumed, connection reuse and error kind are compared with an '
+    'independent decoder on every run.',
+    'reference decoder vt/refs/rfc7230.py; fakenet transport; alphabet in vt/httpalpha.py; '
+    'fingerprint merging argument in DESIGN.md E4.', '5/C08')
+CHECKS['C19'] = ('model_checking', 'bytestream',
+    'exhaustive enumeration of split points through the real Stream decompress/flush path '
+    'against one-shot decoding and an independent zlib reference',
+    'All 2^(n-1) splits of every encoded body with up to 15 (quick) / 21 (thorough) cut '
+    'positions, and for longer bodies all <=2-3-cut splits plus every subset of cuts in the '
+    'first 10-12 positions (where the format is sniffed); every truncation and every '
+    '1-byte substitution of short bodies under whole, single-byte and each single-cut '
+    'delivery. Oracle: output equals one-shot output of the same path and the independent '
+    'reference; corrupt input gives ProtocolError, never different content.',
+    'zlib is a byte-serial transducer; payload/coding alphabet in vt/checks/c19.py.', '5/C19')
+
 NOT_YET = {}
 
 
